@@ -25,7 +25,7 @@ COMPONENTS = {"real": ["smpl_extract.actions (cue path), cuesheet, cdda/image, u
 ASSUMPTIONS = ["titles are safe unique words (hostile titles are C06's)", "all tracks AUDIO, first indices strictly increasing and inside the bin",
                "what simulation adds over plain generation here is only the torn-tail lengths, the block-size knob and the seam observation"]
 EXPECTED_PROBES = ["minutes_gt_0", "seconds_gt_0", "tail_not_multiple_of_4", "tail_not_multiple_of_2352", "multi_index", "untitled", "tracks_ge_3", "knob_not_default",
-                   "empty_last_track", "cli_crosscheck", "first_track_not_at_zero", "exported_twice", "keyword_like_title", "lr_titles"]
+                   "empty_last_track", "cli_crosscheck", "first_track_not_at_zero", "exported_twice", "keyword_like_title", "lr_titles", "cue_no_final_newline", "cue_crlf"]
 SHRINK = {"max_attempts": 300, "max_seconds": 40.0, "simple_values": {"block": [4096]}}
 KNOBS = [4, 8, 64, 510, 4096, 4096, 4096, 8192, 65536]
 CLI_EVERY = 60
@@ -72,7 +72,9 @@ def gen_cdda_model(rng: random.Random, *, titles: str = "safe") -> dict:
 
 
 def gen(rng: random.Random, tier: str, index: int) -> dict:
-    return {"model": gen_cdda_model(rng), "block": rng.choice(KNOBS), "cli": index % CLI_EVERY == 5}
+    return {"model": gen_cdda_model(rng), "block": rng.choice(KNOBS), "cli": index % CLI_EVERY == 5,
+            # how the editor that wrote the cue sheet ended its lines
+            "cue_text_style": rng.choice([None, None, None, "no_final_newline", "no_final_newline", "crlf", "crlf_no_final_newline"])}
 
 
 def check_tracks(res: RunResult, prop: str, model: dict, er: tool.ExportResult, ctx: str = "") -> None:
@@ -117,7 +119,17 @@ def run(sc: dict) -> RunResult:
     model = sc["model"]
     block = sc.get("block", 4096)
     data = C.bin_bytes(model)
-    cue = C.cue_text(model).encode("ascii")
+    text = C.cue_text(model)
+    style = sc.get("cue_text_style")
+    if style == "no_final_newline":
+        text = text.rstrip("\n")
+    elif style == "crlf":
+        text = text.replace("\n", "\r\n")
+    elif style == "crlf_no_final_newline":
+        text = text.rstrip("\n").replace("\n", "\r\n")
+    if style:
+        res.probes["cue_" + style] += 1
+    cue = text.encode("ascii")
     n = model["bin_len"]
     nontrivial = len(model["tracks"]) >= 2
     if n % 4:
